@@ -30,6 +30,12 @@ Checks(r) ==
                                     /\ r.values = m /\ r.len = Len(m)
                                     /\ r.iter = DM!Iter(m)
                                     /\ \A k \in DOMAIN r.gets : r.gets[k] = DM!Get(m, k - 1)] ]
+    [] r.rec = "dnm_api" ->
+         [ dnm_index |-> Chk(r.index = r.m /\ r.oob_panics),                      \* total on 0..len-1, nothing beyond
+           dnm_into_iter |-> Chk(r.into_iter = DM!Iter(r.m)),
+           dnm_same |-> Chk(\A i \in DOMAIN r.same : r.same[i]),                  \* every construction yields the same map (==, hash)
+           dnm_index_mut |-> Chk(\A k \in DOMAIN r.muts : r.muts[k] = [r.m EXCEPT ![k] = 7]),
+           dnm_neq |-> Chk(\A k \in DOMAIN r.neq : r.neq[k]) ]
     [] r.rec = "dnm_insert" ->
          [ insert |-> Chk(/\ r.ok <=> DM!InsertOk(r.m, r.k)
                           /\ r.ok => /\ r.result = DM!Insert(r.m, r.k, 9)
